@@ -285,4 +285,226 @@ theorem eq_of_key_eq {l : List Rec} (hn : (l.map Rec.key).Nodup) {r1 r2 : Rec} (
     · exact absurd hk (hn.1 r1 h1')
     · exact ih hn.2 h1' h2'
 
+/-! ### the shape of a step, and fork–join structure -/
+
+theorem step_shape {p : Prog} {s s' : State} {u : Nat} (hs : step p s u = some s') :
+    ∃ st rest, (s.units u).started = true ∧ (s.units u).code = st :: rest ∧
+      (s'.units u).started = true ∧ (s'.units u).code = rest ∧
+      (∀ v, st = .join v → (s.units v).done = true) ∧
+      ((∀ w, w ≠ u → s'.units w = s.units w) ∨
+       (∃ v, (st = .spawnThread v ∨ st = .spawnTask v) ∧ u < v ∧ v < p.n ∧ (s.units v).started = false ∧
+          (s'.units v).started = true ∧ (s'.units v).code = p.code v ∧ (s'.units v).toks = [] ∧
+          (s'.units v).ctx = (if st = .spawnThread v then none else (s.units u).ctx) ∧
+          ∀ w, w ≠ u → w ≠ v → s'.units w = s.units w)) := by
+  unfold step at hs
+  simp only at hs
+  by_cases hst : (s.units u).started = false
+  · simp [hst] at hs
+  · have hst' : (s.units u).started = true := by simpa using hst
+    simp only [hst', Bool.true_eq_false, if_false] at hs
+    cases hc : (s.units u).code with
+    | nil => rw [hc] at hs; cases hs
+    | cons st rest =>
+      rw [hc] at hs
+      refine ⟨st, rest, hst', rfl, ?_⟩
+      cases st with
+      | enter o =>
+        simp only [Option.some.injEq] at hs; subst hs
+        exact ⟨(by simp [State.setUnit]), (by simp [State.setUnit]), (by intro v h; cases h),
+          Or.inl (by intro w hw; simp [State.setUnit, State.emit, hw])⟩
+      | exit =>
+        cases ht : (s.units u).toks with
+        | nil =>
+          rw [ht] at hs
+          simp only [Option.some.injEq] at hs; subst hs
+          exact ⟨(by simp [State.setUnit]), (by simp [State.setUnit]), (by intro v h; cases h),
+            Or.inl (by intro w hw; simp [State.setUnit, hw])⟩
+        | cons t ts =>
+          obtain ⟨o, old⟩ := t
+          rw [ht] at hs
+          simp only [Option.some.injEq] at hs; subst hs
+          exact ⟨(by simp [State.setUnit]), (by simp [State.setUnit]), (by intro v h; cases h),
+            Or.inl (by intro w hw; simp [State.setUnit, State.emit, hw])⟩
+      | log o =>
+        simp only [Option.some.injEq] at hs; subst hs
+        exact ⟨(by simp [State.setUnit]), (by simp [State.setUnit]), (by intro v h; cases h),
+          Or.inl (by intro w hw; simp [State.setUnit, State.emit, hw])⟩
+      | join v =>
+        simp only at hs
+        split at hs
+        · rename_i hd
+          simp only [Option.some.injEq] at hs; subst hs
+          exact ⟨(by simp [State.setUnit]), (by simp [State.setUnit]), (by intro v' h; cases h; exact hd),
+            Or.inl (by intro w hw; simp [State.setUnit, hw])⟩
+        · cases hs
+      | spawnThread v =>
+        simp only at hs
+        split at hs
+        · rename_i hg
+          obtain ⟨huv, hvn, hvs⟩ := hg
+          simp only [Option.some.injEq] at hs; subst hs
+          have hne : u ≠ v := Nat.ne_of_lt huv
+          exact ⟨(by simp [State.setUnit, hne]), (by simp [State.setUnit, hne]), (by intro v' h; cases h),
+            Or.inr ⟨v, Or.inl rfl, huv, hvn, hvs, (by simp [State.setUnit]), (by simp [State.setUnit]), (by simp [State.setUnit]),
+              (by simp [State.setUnit]), (by intro w h1 h2; simp [State.setUnit, h1, h2])⟩⟩
+        · cases hs
+      | spawnTask v =>
+        simp only at hs
+        split at hs
+        · rename_i hg
+          obtain ⟨huv, hvn, hvs⟩ := hg
+          simp only [Option.some.injEq] at hs; subst hs
+          have hne : u ≠ v := Nat.ne_of_lt huv
+          exact ⟨(by simp [State.setUnit, hne]), (by simp [State.setUnit, hne]), (by intro v' h; cases h),
+            Or.inr ⟨v, Or.inr rfl, huv, hvn, hvs, (by simp [State.setUnit]), (by simp [State.setUnit]), (by simp [State.setUnit]),
+              (by simp [State.setUnit]), (by intro w h1 h2; simp [State.setUnit, h1, h2])⟩⟩
+        · cases hs
+
+theorem joinedB_pend {code : List Stmt} : ∀ {pend : List (Nat × Nat)} {d : Nat}, joinedB pend d code = true →
+    ∀ e ∈ pend, Stmt.join e.1 ∈ code := by
+  induction code with
+  | nil =>
+    intro pend d h e he
+    simp only [joinedB, List.isEmpty_iff] at h
+    subst h; cases he
+  | cons st r ih =>
+    intro pend d h e he
+    cases st with
+    | enter o => exact List.mem_cons_of_mem _ (ih (by simpa [joinedB] using h) e he)
+    | exit =>
+      simp only [joinedB, Bool.and_eq_true] at h
+      exact List.mem_cons_of_mem _ (ih h.2 e he)
+    | log o => exact List.mem_cons_of_mem _ (ih (by simpa [joinedB] using h) e he)
+    | spawnThread v =>
+      exact List.mem_cons_of_mem _ (ih (by simpa [joinedB] using h) e (List.mem_cons_of_mem _ he))
+    | spawnTask v =>
+      exact List.mem_cons_of_mem _ (ih (by simpa [joinedB] using h) e (List.mem_cons_of_mem _ he))
+    | join v =>
+      by_cases hv : e.1 = v
+      · rw [hv]; exact List.mem_cons_self
+      · refine List.mem_cons_of_mem _ (ih (by simpa [joinedB] using h) e ?_)
+        exact List.mem_filter.mpr ⟨he, by simpa using hv⟩
+
+theorem joinedB_split {pre : List Stmt} : ∀ {pend : List (Nat × Nat)} {d : Nat} {st : Stmt} {r : List Stmt} {v : Nat},
+    (st = .spawnThread v ∨ st = .spawnTask v) → joinedB pend d (pre ++ st :: r) = true → Stmt.join v ∈ r := by
+  induction pre with
+  | nil =>
+    intro pend d st r v hst h
+    rcases hst with rfl | rfl
+    · exact joinedB_pend (by simpa [joinedB] using h) (v, d) List.mem_cons_self
+    · exact joinedB_pend (by simpa [joinedB] using h) (v, d) List.mem_cons_self
+  | cons a pre ih =>
+    intro pend d st r v hst h
+    cases a with
+    | exit =>
+      simp only [List.cons_append, joinedB, Bool.and_eq_true] at h
+      exact ih hst h.2
+    | _ => exact ih hst (by simpa [joinedB] using h)
+
+theorem code_mem_codes {p : Prog} {u : Nat} (h : p.code u ≠ []) : p.code u ∈ p.codes := by
+  unfold Prog.code at *
+  cases hc : p.codes[u]? with
+  | none => rw [hc] at h; exact absurd rfl h
+  | some c => simp only [Option.getD_some]; exact List.mem_of_getElem? hc
+
+structure JInv (p : Prog) (s : State) : Prop where
+  suffix : ∀ u, (s.units u).started = true → ∃ pre, p.code u = pre ++ (s.units u).code
+  link : ∀ v, (s.units v).started = true → v ≠ 0 → (s.units v).code ≠ [] →
+    ∃ w, w < v ∧ (s.units w).started = true ∧ Stmt.join v ∈ (s.units w).code
+
+theorem jinv_init (p : Prog) : JInv p (init p) := by
+  constructor
+  · intro u hu
+    by_cases h0 : u = 0
+    · subst h0; exact ⟨[], by simp [init]⟩
+    · simp [init, h0] at hu
+  · intro v hv h0
+    simp [init, h0] at hv
+
+theorem jinv_step {p : Prog} {s s' : State} {u : Nat} (hJ : Joined p) (h : JInv p s) (hs : step p s u = some s') :
+    JInv p s' := by
+  obtain ⟨st, rest, hus, huc, hus', huc', hjoin, hothers⟩ := step_shape hs
+  obtain ⟨pre, hpre⟩ := h.suffix u hus
+  rw [huc] at hpre
+  -- states of units that are started in `s` and are not `u` do not change
+  have hkeep : ∀ w, w ≠ u → (s.units w).started = true → s'.units w = s.units w := by
+    intro w hw hws
+    rcases hothers with ho | ⟨v, _, _, _, hvs, _, _, _, _, ho⟩
+    · exact ho w hw
+    · exact ho w hw (fun e => by rw [e, hvs] at hws; cases hws)
+  constructor
+  · intro x hx
+    by_cases hxu : x = u
+    · subst hxu; exact ⟨pre ++ [st], by rw [huc', hpre]; simp⟩
+    · rcases hothers with ho | ⟨v, _, _, _, _, _, hvc, _, _, ho⟩
+      · rw [ho x hxu] at hx ⊢; exact h.suffix x hx
+      · by_cases hxv : x = v
+        · subst hxv; exact ⟨[], by rw [hvc]; rfl⟩
+        · rw [ho x hxu hxv] at hx ⊢; exact h.suffix x hx
+  · intro x hx hx0 hxc
+    -- was x started before?
+    by_cases hxs : (s.units x).started = true
+    · -- x started before: its old link
+      have hxc0 : (s.units x).code ≠ [] := by
+        by_cases hxu : x = u
+        · subst hxu; rw [huc]; exact List.cons_ne_nil _ _
+        · rw [hkeep x hxu hxs] at hxc; exact hxc
+      obtain ⟨w, hwx, hws, hwj⟩ := h.link x hxs hx0 hxc0
+      refine ⟨w, hwx, ?_⟩
+      by_cases hwu : w = u
+      · subst hwu
+        refine ⟨hus', ?_⟩
+        rw [huc'] 
+        rw [huc] at hwj
+        rcases List.mem_cons.mp hwj with hst | hr
+        · exfalso
+          have hd := hjoin x hst.symm
+          simp only [UState.done, Bool.and_eq_true, List.isEmpty_iff] at hd
+          exact hxc0 hd.2
+        · exact hr
+      · rw [hkeep w hwu hws]; exact ⟨hws, hwj⟩
+    · -- x is the unit spawned by this step
+      rcases hothers with ho | ⟨v, hst, huv, _, _, _, _, _, _, ho⟩
+      · have hxu : x ≠ u := fun e => hxs (e ▸ hus)
+        rw [ho x hxu] at hx; exact absurd hx hxs
+      · have hxu : x ≠ u := fun e => hxs (e ▸ hus)
+        have hxv : x = v := by
+          apply Classical.byContradiction
+          intro hne
+          rw [ho x hxu hne] at hx; exact hxs hx
+        subst hxv
+        refine ⟨u, huv, hus', ?_⟩
+        rw [huc']
+        have hne : p.code u ≠ [] := by rw [hpre]; simp
+        have := hJ _ (code_mem_codes hne)
+        rw [hpre] at this
+        exact joinedB_split hst this
+
+theorem jinv_run {p : Prog} (hJ : Joined p) (sched : List Nat) : JInv p (run p sched) := by
+  unfold run
+  suffices h : ∀ s, JInv p s → JInv p (sched.foldl (stepD p) s) from h _ (jinv_init p)
+  induction sched with
+  | nil => intro s h; exact h
+  | cons u us ih =>
+    intro s h
+    apply ih
+    unfold stepD
+    cases hs : step p s u with
+    | none => exact h
+    | some s' => exact jinv_step hJ h hs
+
+/-- in a fork–join program the end of the main unit is the end of everything -/
+theorem allDone_of_mainDone {p : Prog} {s : State} (h : JInv p s) (hm : MainDone s) : AllDone s := by
+  intro v
+  induction v using Nat.strongRecOn with
+  | _ v ih =>
+    intro hv
+    by_cases h0 : v = 0
+    · subst h0; exact hm
+    · apply Classical.byContradiction
+      intro hc
+      obtain ⟨w, hwv, hws, hwj⟩ := h.link v hv h0 hc
+      rw [ih w hwv hws] at hwj
+      cases hwj
+
 end Ctx
